@@ -90,10 +90,72 @@ def import_with_coop_locks(importer):
         threading.Lock, threading.RLock = saved
 
 
+# ---- bytecode granularity: sys.monitoring INSTRUCTION events on every code object defined under <repo>/athlib.
+# (sys.settrace with f_trace_opcodes loses the events of the first thread that touches a code object in CPython 3.12, which makes replays diverge.)
+_MON_TOOL = 3
+_MON = dict(on=False, codes=None)
+
+
+def _athlib_codes():
+    root = os.path.join(os.path.realpath(common.REPO), 'athlib') + os.sep
+    seen, out = set(), []
+
+    def walk(code):
+        if id(code) in seen:
+            return
+        seen.add(id(code))
+        if code.co_filename.startswith(root):
+            out.append(code)
+        for c in code.co_consts:
+            if hasattr(c, 'co_code'):
+                walk(c)
+    for name, m in list(sys.modules.items()):
+        if m is None or not (name == 'athlib' or name.startswith('athlib.')):
+            continue
+        for v in list(vars(m).values()):
+            for f in ([v] if not isinstance(v, type) else list(vars(v).values())):
+                f = getattr(f, '__func__', f)
+                f = getattr(f, 'fget', f) if isinstance(f, property) else f
+                f = getattr(f, '__wrapped__', f)
+                c = getattr(f, '__code__', None)
+                if c is not None:
+                    walk(c)
+    return out, root
+
+
+def _instr_cb(code, offset):
+    ex = _CURRENT
+    if ex is None or not ex.opcodes:
+        return
+    i = ex.tid_of.get(_thread.get_ident())
+    if i is None or ex.finished[i]:
+        return
+    ex.point(i, (code.co_filename[len(ex.root):], code.co_name, offset))
+
+
+def opcode_monitor(on):
+    """switch instruction events for all athlib code objects on or off (process-wide; forked workers inherit the setting)"""
+    mon = sys.monitoring
+    if on and not _MON['on']:
+        if mon.get_tool(_MON_TOOL) is None:
+            mon.use_tool_id(_MON_TOOL, 'verif-sched')
+        mon.register_callback(_MON_TOOL, mon.events.INSTRUCTION, _instr_cb)
+        _MON['codes'] = _athlib_codes()[0]
+        for c in _MON['codes']:
+            mon.set_local_events(_MON_TOOL, c, mon.events.INSTRUCTION)
+        _MON['on'] = True
+    elif not on and _MON['on']:
+        for c in _MON['codes']:
+            mon.set_local_events(_MON_TOOL, c, 0)
+        mon.register_callback(_MON_TOOL, mon.events.INSTRUCTION, None)
+        _MON['on'] = False
+
+
 class Execution(object):
     """one run of the thread bodies under a given list of choices"""
 
-    def __init__(self, bodies, prefix, traced_prefix, atomic_codes=()):
+    def __init__(self, bodies, prefix, traced_prefix, atomic_codes=(), opcodes=False):
+        self.opcodes = opcodes               # scheduling point before every bytecode instruction inside athlib instead of every line
         self.bodies = bodies
         self.n = len(bodies)
         # prefix: ({point index: non-default choice}, number of points it covers)
@@ -195,7 +257,10 @@ class Execution(object):
     def runner(self, i):
         self.sems[i].acquire()
         self.tid_of[_thread.get_ident()] = i
-        sys.settrace(self.make_tracer(i))
+        if not self.opcodes:
+            sys.settrace(self.make_tracer(i))
+        elif not _MON['on']:
+            raise HarnessError('opcode scenario without opcode_monitor(True)')
         try:
             self.results[i] = ('ok', self.bodies[i]())
         except SchedDeadlock:
@@ -250,9 +315,10 @@ class Scenario(object):
     """bodies: list of zero-argument callables run as threads; reset(): restore the pristine shared state;
     expected: per-thread result when run alone from the same starting state."""
 
-    def __init__(self, name, reset, bodies, describe, atomic_codes=()):
+    def __init__(self, name, reset, bodies, describe, atomic_codes=(), opcodes=False):
         self.name, self.reset, self.bodies, self.describe = name, reset, bodies, describe
         self.atomic_codes = atomic_codes
+        self.opcodes = opcodes
 
     def serial(self):
         out = []
@@ -281,7 +347,7 @@ class Explorer(object):
 
     def run_one(self, prefix, expect):
         self.sc.reset()
-        x = Execution(self.sc.bodies, prefix, expect, self.sc.atomic_codes).run()
+        x = Execution(self.sc.bodies, prefix, expect, self.sc.atomic_codes, self.sc.opcodes).run()
         self.execs += 1
         self.points_total += len(x.points)
         self.max_points = max(self.max_points, len(x.points))
@@ -378,7 +444,8 @@ def compress(x):
     for (running, where, nen, still), c in zip(x.points, x.choices):
         if running is None:
             continue
-        w = '%s:%s' % where if isinstance(where, tuple) and len(where) == 2 and isinstance(where[1], int) else str(where)
+        w = '%s:%s' % where if isinstance(where, tuple) and len(where) == 2 and isinstance(where[1], int) else \
+            '%s:%s@%s' % where if isinstance(where, tuple) and len(where) == 3 else str(where)
         if cur and cur[0] == running:
             cur[2] = w
             cur[3] += 1
